@@ -50,7 +50,7 @@ def differential(base):
 
 def mp_scenarios(tier):
     out = []
-    pick7 = {"s2A||d1 from p1A", "s1A||d1 from p1A", "t1A||d1 from empty", "t1A||t2A from Aunref", "d1||d1 from p1A",
+    pick7 = {"d1||s2A from p1A", "d1||s1A from p1A", "d1||t1A from empty", "t1A||t2A from Aunref", "d1||d1 from p1A",
              "d1||xA from p1A", "s1A||s1A from empty", "s1A||t1A from Aunref", "t1A||t1B from empty", "s1A||xA from Aunref"}
     for s in c07.scenarios("quick" if tier == "quick" else "quick"):
         if tier == "thorough" or s["name"] in pick7:
